@@ -230,6 +230,8 @@ var loaderShapes = []shape{
 	{"map_unknown", map[any]any{"unknown": "x"}}, {"map_nested", map[any]any{"a": map[any]any{"b": "c"}}},
 	{"map_intkey", map[any]any{5: "x"}}, {"badregex", "re:["}, {"cmdsub_false", "`false`"}, {"emptystr", ""},
 	{"sig_lower", "sigterm"}, {"sig_bogus", "SIGBOGUS"}, {"cron_bad", "61 * * * *"}, {"neg", -3}, {"huge", 1 << 40},
+	{"cron_tz_only", "TZ=UTC"}, {"cron_crontz_only", "CRON_TZ=Asia/Tokyo"}, {"cron_tz_ok", "TZ=UTC 0 1 * * *"}, {"cron_every", "@every 1h"},
+	{"cron_every_bad", "@every"}, {"cron_six", "* * * * * *"}, {"cron_at_bogus", "@bogus"}, {"cron_range_bad", "5-1 * * * *"}, {"cron_step_zero", "*/0 * * * *"},
 	{"list_listmap", []any{[]any{map[any]any{"a": 1}}}}, {"map_list_map", map[any]any{"k": []any{map[any]any{"a": 1}}}},
 }
 
